@@ -41,7 +41,7 @@ def gen_state(rs, ns, nc, klass):
             elif k == "int":
                 v = float(rs.randint(0, 40))
             else:
-                v = rs.uniform(100.0, 2000.0) if rs.chance(0.7) else float(rs.randint(100, 2000))
+                v = rs.loguniform(100.0, 2000.0) if rs.chance(0.7) else float(rs.randint(100, 2000))
             st.append(v)
     return st
 
@@ -55,6 +55,8 @@ def generate(seed, tier, index):
                                  chem="mixed"))
     m0 = Model(spec)
     klass = rs.wchoice([("mixed", 5), ("tiny", 2), ("int", 2), ("large", 2), ("frac", 1)])
+    if isp == "Poisson" and rs.chance(0.35):
+        klass = "large"      # the regime where an implementation is tempted to switch to a normal approximation
     spec["state"] = gen_state(rs, m0.ns, m0.nc, klass)
     exact_int = all(v == math.floor(v) for v in spec["state"])
     # exact-integer workloads: state written in molecules so that no unit round trip touches the integers
@@ -65,6 +67,8 @@ def generate(seed, tier, index):
         # gen_script refused 'none' on a non-integer state for a stochastic engine
         isp = entry["phys"]["sp"]["isp"]
     K = 200 if isp == "Poisson" else rf.randint(8, 40)
+    if isp == "Poisson" and klass == "large":
+        K = 500
     if tier == "thorough" and isp == "Poisson":
         K = 600
     seeds = [rf.bits(31) for _ in range(K)]
@@ -182,7 +186,9 @@ def check(case, results):
                 # in place of the Poisson law for large means, is invisible per entry
                 big = lam >= 100.0
                 stats["g"] = {"pm_num": float((tot[pos] - K * lam[pos]).sum()), "pm_den": float(K * lam[pos].sum()),
-                              "pmb_num": float((tot[big] - K * lam[big]).sum()), "pmb_den": float(K * lam[big].sum())}
+                              # weights 1/lambda: a bias that does not grow with the mean (floor of a normal draw: -0.5)
+                              "pmb_num": float(((tot[big] - K * lam[big]) / lam[big]).sum()),
+                              "pmb_den": float((K / lam[big]).sum())}
                 # exact test: the sum of K independent Poisson(lam) draws is Poisson(K*lam)
                 worst_p, worst_d = 1.0, None
                 for d in np.argwhere(pos):
@@ -251,7 +257,7 @@ def global_check(total):
     out, info = [], {}
     g = total.get("g") or {}
     for nm, what in (("pm", "all entries"), ("pmb", "entries with mean >= 100")):
-        if g.get(nm + "_den", 0) > 1000:
+        if g.get(nm + "_den", 0) > (1000 if nm == "pm" else 20):
             z = g[nm + "_num"] / math.sqrt(g[nm + "_den"])
             info["pooled_poisson_mean_z (%s)" % what] = z
             if abs(z) > ZMAX:
